@@ -118,3 +118,30 @@ def error_excerpt(out, n=40):
     if not idx:
         return "\n".join(lines[-n:])
     return "\n".join(lines[idx[0]: idx[0] + n])
+
+
+def judge(workdir, trace_file, prop, workers=4, timeout=1800, tag=""):
+    """evaluate property `prop` on every record of trace_file with TLC (TraceProps.tla);
+    returns (list of {id, w}, stats, seconds)"""
+    os.makedirs(workdir, exist_ok=True)
+    for f in os.listdir(SPEC_DIR):
+        if f.endswith(".tla") or f.endswith(".cfg"):
+            shutil.copy(os.path.join(SPEC_DIR, f), os.path.join(workdir, f))
+    name = "TraceProps"
+    env = dict(os.environ)
+    env["JAVA_TOOL_OPTIONS"] = "-Xss1g -XX:ParallelGCThreads=2"
+    env["TRACES"] = os.path.abspath(trace_file)
+    env["PROP"] = prop
+    meta = os.path.join(workdir, f"states_tp_{prop}_{tag}_{os.getpid()}")
+    cmd = ["timeout", str(timeout), "java", "-Xmx6g", "-cp", tlc_classpath(), "tlc2.TLC",
+           "-workers", str(workers), "-metadir", meta, "-cleanup", "-noGenerateSpecTE",
+           "-config", "TraceProps.cfg", "TraceProps.tla"]
+    t0 = time.time()
+    p = subprocess.run(cmd, cwd=workdir, env=env, capture_output=True, text=True)
+    dt = time.time() - t0
+    shutil.rmtree(meta, ignore_errors=True)
+    if p.returncode == 124:
+        raise ToolError(f"TLC timeout judging {trace_file} for {prop}")
+    if not tlc_ok(p.returncode, p.stdout):
+        raise ToolError(f"TLC failed judging {trace_file} for {prop}:\n" + error_excerpt(p.stdout, 60))
+    return parse_tagged(p.stdout, "VIOL"), parse_stats(p.stdout), dt
